@@ -24,18 +24,18 @@ type c32State struct {
 type c32In struct {
 	Op   string
 	Key  int
-	Val  int  // value to write (unique, >0)
-	Mode int  // callback behaviour: 0 ok, 1 ignore, 2 error ; SetOrRemove: 3 remove
+	Val  int // value to write (unique, >0)
+	Mode int // callback behaviour: 0 ok, 1 ignore, 2 error ; SetOrRemove: 3 remove
 }
 
 type c32Out struct {
-	Found   bool // value seen by read / callback
-	Seen    int
-	Ret     int  // returned value
-	A, B    bool // added/created, removed
-	Err     int  // 0 nil, 1 callback error, 2 closed
-	Snap    [c32Keys]int
-	Called  bool // callback was called
+	Found  bool // value seen by read / callback
+	Seen   int
+	Ret    int  // returned value
+	A, B   bool // added/created, removed
+	Err    int  // 0 nil, 1 callback error, 2 closed
+	Snap   [c32Keys]int
+	Called bool // callback was called
 }
 
 var errC32 = errors.New("c32 callback error")
@@ -722,11 +722,11 @@ func c32RunLocked(r *simkit.Run) {
 
 func init() {
 	simkit.Register(&simkit.Harness{
-		ID:  "C32",
-		Run: c32Run,
-		Real: []string{"util.SingleLockedMap", "util.ShardedMap", "util.NewDeepShardedMap", "util.Locked"},
-		Stub: []string{},
-		Rule: "each run draws map kind (single / sharded 2..64 / deep sharded / Locked[T]), 2-6 clients x 2-7 operations over 4 keys with unique written values and callback outcomes (ok/ignore/error/remove); the seeded kernel picks which client proceeds at every simulated lock acquisition and inside callbacks; history checked by porcupine against a sequential map. distinct = distinct event-log hash (operations + schedule); non-trivial = at least one non-zero choice consumed and the oracle ran",
+		ID:          "C32",
+		Run:         c32Run,
+		Real:        []string{"util.SingleLockedMap", "util.ShardedMap", "util.NewDeepShardedMap", "util.Locked"},
+		Stub:        []string{},
+		Rule:        "each run draws map kind (single / sharded 2..64 / deep sharded / Locked[T]), 2-6 clients x 2-7 operations over 4 keys with unique written values and callback outcomes (ok/ignore/error/remove); the seeded kernel picks which client proceeds at every simulated lock acquisition and inside callbacks; history checked by porcupine against a sequential map. distinct = distinct event-log hash (operations + schedule); non-trivial = at least one non-zero choice consumed and the oracle ran",
 		Assumptions: []string{"Len() is checked only after all clients finished, as the property states", "snapshot reads (Traverse/Map) are modelled as atomic"},
 	})
 }
